@@ -105,6 +105,11 @@ theorem empty_checksum_text : Cksum.toText [] = .ok [] := by
 /-- the builder's own calls: none panics (the typed calls use keys of the translated table, all valid) -/
 theorem known_keys_valid : ∀ k ∈ knownKeys, isValidKey k = true := by decide
 
+/-- the harness's user-defined typed keys: "Arch" and "Repository_URL" are valid (mixed case), "a b"
+is not — the typed setters on it are the documented panic, lookups and removal simply find nothing -/
+theorem custom_keys : isValidKey (knownKey 7) = true ∧ isValidKey (knownKey 8) = true ∧
+    isValidKey (knownKey 9) = false := by decide
+
 theorem checksum_key_valid : isValidKey checksumKey = true := checksumKey_valid
 
 /-- instantiation at the linked tables -/
